@@ -1,6 +1,7 @@
 use crate::report::Prop;
 use crate::report::Tier;
 
+pub mod c01;
 pub mod c02;
 pub mod c03;
 pub mod c04;
@@ -13,10 +14,11 @@ pub mod c18;
 pub mod c19;
 pub mod c20;
 
-pub const ALL: &[&str] = &["C02", "C03", "C04", "C05", "C06", "C14", "C15", "C17", "C18", "C19", "C20"];
+pub const ALL: &[&str] = &["C01", "C02", "C03", "C04", "C05", "C06", "C14", "C15", "C17", "C18", "C19", "C20"];
 
 pub fn get(id: &str, tier: Tier) -> Option<Prop> {
   Some(match id {
+    "C01" => c01::prop(tier),
     "C02" => c02::prop(tier),
     "C03" => c03::prop(tier),
     "C04" => c04::prop(tier),
